@@ -39,7 +39,7 @@ func init() {
 			"position fields the restorer leaves NoPos are outside the statement (it speaks of positions the restorer assigns) and are only counted",
 			"a comment-token inversion that gofmt itself produces when the comment is spliced textually before the token is attributed to go/printer, not to dst",
 		},
-		Required: map[string]int{"configs": 4},
+		Required: map[string]int{"configs": 5},
 	})
 }
 
@@ -557,6 +557,102 @@ func runC12(c *fw.Ctx) {
 				}
 			})
 		}
+	}
+	// one FileRestorer re-used for several files of one FileSet: what was established for an
+	// earlier file (line table, printed form, reported positions) must survive the later restores
+	for i := 0; i+2 < len(files); i += 3 {
+		if !c.Mine(i / 3) {
+			continue
+		}
+		trio := files[i : i+3]
+		id := "reuse:" + corpus.Rel(trio[0])
+		c.Case(id, func() {
+			c.Observe("configs", "file-restorer-reused")
+			fr := decorator.NewRestorer().FileRestorer()
+			fr.Fset = token.NewFileSet()
+			type kept struct {
+				af    *ast.File
+				tf    *token.File
+				lines []int
+				out   string
+				posns []token.Position
+			}
+			var ks []kept
+			snapshot := func(af *ast.File) (string, []token.Position) {
+				var buf bytes.Buffer
+				if err := format.Node(&buf, fr.Fset, af); err != nil {
+					return "format error: " + err.Error(), nil
+				}
+				var ps []token.Position
+				n := 0
+				ast.Inspect(af, func(x ast.Node) bool {
+					if x != nil {
+						if n%7 == 0 {
+							ps = append(ps, fr.Fset.Position(x.Pos()))
+						}
+						n++
+					}
+					return true
+				})
+				return buf.String(), ps
+			}
+			verify := func(stage string) {
+				for k, e := range ks {
+					l := e.tf.Lines()
+					if !reflect.DeepEqual(l, e.lines) {
+						c.Violate("line-table-changed", "line-table-changed:file-restorer-reused", fmt.Sprintf("%s: the line table of file #%d changed after %s (%d entries before, %d after)", id, k, stage, len(e.lines), len(l)), "")
+						return
+					}
+					for j := 1; j < len(l); j++ {
+						if l[j] <= l[j-1] || l[j] >= e.tf.Size() {
+							c.Violate("line-table", "line-table:file-restorer-reused", fmt.Sprintf("%s: file #%d after %s: line table entry %d = %d (previous %d, file size %d)", id, k, stage, j, l[j], l[j-1], e.tf.Size()), "")
+							return
+						}
+					}
+					out, ps := snapshot(e.af)
+					if out != e.out {
+						c.Violate("reprint-differs", "reprint-differs:file-restorer-reused", fmt.Sprintf("%s: printing the restored file #%d again after %s gives different bytes: %s", id, k, stage, obs.DiffContext([]byte(out), []byte(e.out))), "")
+						return
+					}
+					if !reflect.DeepEqual(ps, e.posns) {
+						c.Violate("positions-changed", "positions-changed:file-restorer-reused", fmt.Sprintf("%s: reported positions of file #%d changed after %s", id, k, stage), "")
+						return
+					}
+				}
+			}
+			for k, p := range trio {
+				src := readFile(p)
+				if strings.HasPrefix(p, "zoo:") {
+					src = []byte(zoo[strings.TrimPrefix(p, "zoo:")])
+				}
+				if src == nil || len(src) > 150000 {
+					return
+				}
+				df, err := decorator.Parse(src)
+				if err != nil {
+					return
+				}
+				fr.Name = fmt.Sprintf("f%d.go", k)
+				var af *ast.File
+				if sig, detail := fw.Try(func() { af, err = fr.RestoreFile(df) }); sig != "" {
+					c.Violate("restore-panic", sig, id+" [file-restorer-reused]\n"+detail, string(src))
+					return
+				}
+				if err != nil {
+					return
+				}
+				tf := fr.Fset.File(af.Pos())
+				if tf == nil {
+					c.Violate("no-file", "no-file:file-restorer-reused", id+": restored file has no *token.File", string(src))
+					return
+				}
+				verify(fmt.Sprintf("restoring file #%d", k))
+				out, ps := snapshot(af)
+				ks = append(ks, kept{af, tf, append([]int(nil), tf.Lines()...), out, ps})
+			}
+			c.Count("file_restorer_reuse_sequences", 1)
+			c.Nontrivial(id)
+		})
 	}
 	_ = refl.TypeName
 }
